@@ -422,13 +422,21 @@ func (c *CheckCtx) crossSolvers() {
 	}
 	dis := 0
 	checked := 0
+	jobsRechecked := 0
 	var used []string
 	for _, sv := range []string{"z3-new", "cvc5"} {
 		r2 := &Runner{L: c.L, solver: sv, timeoutMs: c.R.timeoutMs, workers: c.R.workers, deadline: c.R.deadline}
-		jobs := make([]Job, len(c.Results))
-		for i, jr := range c.Results {
-			jobs[i] = jr.Job
+		// at most maxCross jobs are re-run per solver (an even spread over the job list)
+		const maxCross = 800
+		step := 1
+		if len(c.Results) > maxCross {
+			step = (len(c.Results) + maxCross - 1) / maxCross
 		}
+		var jobs []Job
+		for i := 0; i < len(c.Results); i += step {
+			jobs = append(jobs, c.Results[i].Job)
+		}
+		jobsRechecked = len(jobs)
 		res := r2.RunJobs(jobs)
 		used = append(used, sv)
 		for _, jr := range res {
@@ -451,7 +459,8 @@ func (c *CheckCtx) crossSolvers() {
 			}
 		}
 	}
-	c.Extra["cross_solver"] = map[string]interface{}{"solvers": used, "obligations_rechecked": checked, "disagreements": dis}
+	c.Extra["cross_solver"] = map[string]interface{}{"solvers": used, "obligations_rechecked": checked, "disagreements": dis,
+		"jobs_rechecked_per_solver": jobsRechecked, "jobs_total": len(c.Results)}
 }
 
 func (c *CheckCtx) auditSimplifier() {
